@@ -36,7 +36,7 @@ PROPS = {
     },
     "C14": {
         "modules": ["contracts.c14_lifecycle", "contracts.c02_graph_sched", "contracts.c17_executor",
-                    "contracts.c03_node", "contracts.c09_nested", "contracts.c10_map"],
+                    "contracts.c03_node", "contracts.c09_nested", "contracts.c10_map", "contracts.c14_mesh"],
         "level": "proof",
         "design_ref": "DESIGN.md section 8, C14",
         "trusted_base": [
